@@ -387,6 +387,7 @@ type vc06Case struct {
 	Desc     string
 	Spec     vc06Spec
 	Bytes    string `json:",omitempty"` // exact bytes offered (replay)
+	PreBytes string `json:",omitempty"` // the honest transaction that is added FIRST (re-encoding cases)
 	Honest   bool
 }
 
@@ -442,6 +443,28 @@ func vc06BuildCases(b *vc06Base, pairs bool) []vc06Case {
 			s.Desc = t.Name + "|" + k
 			out = append(out, vc06Case{Template: t.Name, State: t.State, Desc: k, Spec: s})
 		}
+		// liberal re-encodings of the SAME signed triple: offered after the transaction itself was added ("exactly once": must be
+		// refused, nothing changes, nobody is told), and offered to a DAG that does not hold it (judged as any other input)
+		hb := hs.bytes()
+		encs := vc06Reencodings(hb)
+		en := make([]string, 0, len(encs))
+		for k := range encs {
+			en = append(en, k)
+		}
+		sort.Strings(en)
+		hp, _ := vc06PayloadFor(t.Name)
+		for _, k := range en {
+			for _, withPayload := range []bool{true, false} {
+				sp := vc06Spec{Desc: t.Name + "|re-encoding-after-add:" + k, Payload: hp, HasPayload: withPayload}
+				if !withPayload {
+					sp.Payload = nil
+				}
+				out = append(out, vc06Case{Template: t.Name, State: t.State, Desc: fmt.Sprintf("re-encoding-after-add:%s/payload=%v", k, withPayload), Spec: sp,
+					Bytes: hex.EncodeToString(encs[k]), PreBytes: hex.EncodeToString(hb)})
+			}
+			sp := vc06Spec{Desc: t.Name + "|re-encoding:" + k, Payload: t.Payload, HasPayload: t.HasPayload}
+			out = append(out, vc06Case{Template: t.Name, State: t.State, Desc: "re-encoding:" + k, Spec: sp, Bytes: hex.EncodeToString(encs[k])})
+		}
 		// the honest transaction of the other state's template: a second root / a non-root on the empty DAG
 		other := "base"
 		if t.State == "base" {
@@ -473,7 +496,9 @@ func TestVerifC06Inputs(t *testing.T) {
 		"private with PAL, ver 1 with an RSA-PSS key, ES512) x every single mutation from a finite alphabet per protected header " +
 		"(alg,cty,crit,sigt,ver,prevs,lc,pal,kid,jwk + b64/jku/x5c/unknown: missing, 16 type confusions, header-specific extremes), duplicated members, " +
 		"payload segment, signature, signer, serialisation (compact re-encodings, flattened/general JSON with 0/1/2 signatures, unprotected headers) and offered payload; " +
-		"every mutant is RE-SIGNED over the headers as sent; thorough: all pairs of mutations of different fields on three templates. " +
+		"every mutant is RE-SIGNED over the headers as sent; plus, for every template, ~70 liberal re-encodings of the SAME signed triple (CR / LF / CRLF inside, before and after each segment, " +
+		"space / tab around, '=' padding, standard alphabet, non-zero trailing bits, trailing dot, extra segments, flattened / general JSON with and without unprotected header) offered AFTER the transaction itself was added " +
+		"(exactly once: the set of admitted signed contents must not grow, storage byte-identical, nobody notified) and to a DAG that does not hold it; thorough: all pairs of mutations of different fields on three templates. " +
 		"A case is non-trivial when it is a distinct (template, mutation) pair; each is offered to the real ParseTransaction + State.Add on bbolt")
 	r.Assume("jwx (JWS/JWK parsing, signature primitives) and bbolt are exercised, not modelled; the reference model uses encoding/json, encoding/base64 and the Go standard crypto only")
 	b := vc06MakeBase()
@@ -501,7 +526,7 @@ func TestVerifC06Inputs(t *testing.T) {
 	insts := map[string]*vc06Inst{}
 	get := func(state string) *vc06Inst {
 		if insts[state] == nil {
-			insts[state] = b.inst(t, state)
+			insts[state] = b.inst(t, strings.SplitN(state, "|", 2)[0])
 		}
 		return insts[state]
 	}
@@ -530,7 +555,20 @@ func TestVerifC06Inputs(t *testing.T) {
 		} else {
 			by = c.Spec.bytes()
 		}
-		in := get(c.State)
+		key := c.State
+		if c.PreBytes != "" {
+			key = c.State + "|after:" + c.Template
+		}
+		if insts[key] == nil && c.PreBytes != "" {
+			in := b.inst(t, c.State)
+			pre, _ := hex.DecodeString(c.PreBytes)
+			hp, _ := vc06PayloadFor(c.Template)
+			if o := in.offer(pre, hp, true, false); !o.Admitted || !o.V.Admit {
+				t.Fatalf("harness: the honest transaction of %s was not admitted before its re-encodings: %+v", c.Template, o)
+			}
+			insts[key] = in
+		}
+		in := get(key)
 		o := in.offer(by, c.Spec.Payload, c.Spec.HasPayload, true)
 		transitions++
 		r.Eval(c.Template + "|" + c.State + "|" + c.Desc)
@@ -573,7 +611,7 @@ func TestVerifC06Inputs(t *testing.T) {
 			r.Sample(map[string]any{"template": c.Template, "state": c.State, "mutation": c.Desc, "outcome": outcome, "model_clause": o.V.Clause})
 		}
 		if o.Admitted || in.poisoned || len(o.Problems) > 0 {
-			drop(c.State)
+			drop(key)
 		}
 	}
 	r.Transitions(transitions)
